@@ -196,6 +196,17 @@ def run(ctx):
             failures.append(("harness_error", r[:300], dict(job=job)))
         else:
             failures += [(s, d, dict(rep, job=list(job))) for s, d, rep in r]
+    # the statement catalogue in six layouts each (blanks removed / widened between tokens, compound keywords glued,
+    # keyword case, a continuation break at a random token boundary): the tree of the plain spelling
+    import catprod
+    cj = [(("f2003", "f2008")[k % 2], b, src, ctx.seed * 1000 + k) for k, (b, src) in enumerate(catprod.sources(ctx.quick, ctx.seed))]
+    ncat = 0
+    for job, (st, r) in zip(cj, pool.pmap(catprod.check_layout, cj, chunksize=8)):
+        if st != "ok":
+            failures.append(("harness_error", r[:300], dict(job=list(job))))
+        else:
+            ncat += r[0]
+            failures += r[1]
     ncomp = 0
     for name, (st, r) in zip(sorted(COMPOUND), pool.pmap(compound_probe, sorted(COMPOUND), chunksize=4)):
         ncomp += 3
@@ -203,14 +214,17 @@ def run(ctx):
             failures.append(("harness_error", r[:300], dict(probe=name)))
         else:
             failures += [(s, d, dict(rep, probe=name)) for s, d, rep in r]
-    e2e = dict(cases=nsmall + len(jobs) + ncomp, distinct=nsmall + len(set(jobs)) + ncomp, exhaustive_small=nsmall,
+    e2e = dict(cases=nsmall + len(jobs) + ncomp + ncat, distinct=nsmall + len(set(jobs)) + ncomp + ncat, exhaustive_small=nsmall,
+               catalogue_layouts=ncat,
                failures=failures,
                rule="(a) six small statements: EVERY single break point (each token boundary, each position inside "
                     "each literal) x leading '&' x 5 kinds of lines in between x trailing comment x indentation: "
                     "same items as the one-line form; (b) generated programs in random layouts (continuations, "
                     "comments, ';' joins, indentation, keyword case, the case of every occurrence of a name chosen on its own): "
                     "tree(L(P)) == tree(canonical(P)) up to case when the case was changed; (c) %d pairs of adjacent keywords written with 0 (where the standard makes "
-                    "the blank optional), 2 and 5 blanks: the tree of the one-blank spelling" % len(COMPOUND),
+                    "the blank optional), 2 and 5 blanks: the tree of the one-blank spelling; (d) ~300 less usual statement forms x "
+                    "4 unit wrappers x 6 layouts (tokens tight / wide, glued compound keywords, upper / lower case, one continuation "
+                    "break): the tree of the plain spelling up to case" % len(COMPOUND),
                samples=[dict(job=list(jobs[0]))])
     return common.finish(ctx, proof, corr, e2e, extra_assumptions=[
         "proved for the reader model: exact joining of continuation pieces free of quotes/'!'/'&', transparency of "
@@ -222,6 +236,10 @@ def run(ctx):
 
 def replay(ctx, data):
     import fp
+    if "catalogue_layout" in data:
+        a = fp.parse(data["source"], std=data.get("std", "f2003"), ignore_comments=True)
+        b = fp.parse(data["canonical"], std=data.get("std", "f2003"), ignore_comments=True)
+        return a.kind == "tree" and b.kind == "tree" and fp.canon_repr(a.tree).lower() == fp.canon_repr(b.tree).lower()
     if "job" in data:
         return not check_program(tuple(data["job"]))
     if "probe" in data:
